@@ -378,7 +378,9 @@ fn guarded<F: FnOnce()>(prop: &'static str, crash_props: &[&str], runner: &str, 
             return;
         }
         let msg = LAST_PANIC.with(|l| l.borrow().clone());
-        if crash_props.contains(&prop) {
+        // a panic raised inside the waker list or its intrusive queue (debug assertions of cordyceps, index checks) on a legal
+        // call sequence is a failure of the shared waker state (C03) wherever it was triggered from
+        if crash_props.contains(&prop) || (prop == "C03" && (msg.contains("waker_list") || msg.contains("cordyceps"))) {
             report(&Fail { prop, scenario: format!("{runner}: random history #{it} (re-run the same command to reproduce)"), history: vec![], what: format!("the real crate panicked on a legal call sequence: {}", msg.replace('\n', " ")) });
         }
     }
@@ -1214,6 +1216,7 @@ fn run_adapters(prop: &'static str, seed: u64, iters: usize) {
                 }
                 _ => {
                     let polls_before = ust.polls.get();
+                    let yielded_before = yielded.len();
                     let wakes_before = tw.0.load(Ordering::SeqCst);
                     let r = s.as_mut().poll_next(&mut cx);
                     let cs = ust.children.borrow();
@@ -1264,8 +1267,9 @@ fn run_adapters(prop: &'static str, seed: u64, iters: usize) {
                     if in_flight > n {
                         fail(&["C09"], &hist, format!("{in_flight} unfinished futures held, limit {n}"));
                     }
-                    if ordered && cs.len() - yielded.len() > n {
-                        fail(&["C16"], &hist, format!("{} upstream items (futures and upstream errors) pulled but not yet yielded, limit {n}", cs.len() - yielded.len()));
+                    if ordered && cs.len() - yielded_before > n {
+                        // (counted at the moment before this call handed out its item, if any: that item was still held then)
+                        fail(&["C16"], &hist, format!("{} upstream items (futures and upstream errors) were held pulled-but-not-yielded during this call, limit {n}", cs.len() - yielded_before));
                     }
                     if ust.polled_after_end.get() {
                         fail(&["C10"], &hist, "upstream polled again after it returned None".into());
@@ -2499,7 +2503,10 @@ fn main() {
             }
             run_adapters(prop, seed, iters);
         }
-        "C03" => run_waker_lifecycle(prop),
+        "C03" => {
+            run_waker_lifecycle(prop);
+            run_collections(prop, seed, iters / 2);
+        }
         "C06" | "C07" => {
             run_waker_lifecycle(prop);
             run_join_special(prop);
